@@ -582,7 +582,7 @@ End Chain.
 (* ================================================================ *)
 (* 3. Subscriber entry points over chains                            *)
 
-Lemma go_stop_table st a : go_stop st a = stop_table (s_latest st) (a_stop a) (a_resync a).
+Lemma go_stop_table cfg st a : go_stop cfg st a = stop_table (eff_latest cfg st) (a_stop a) (a_resync a).
 Proof. unfold go_stop, stop_table. destruct (a_resync a), (a_stop a); reflexivity. Qed.
 
 Lemma go_depth_table cfg a stop :
@@ -604,7 +604,7 @@ Theorem sync_ad_chain_spec extra ch pub cfg a st head queried :
   chain_wf EPrev extra ch = true -> c_strict cfg = true ->
   resolve_hook cfg (a_hook a) = HNominate ->
   the_head a = Some (head, queried) -> In head ch ->
-  let stop := stop_table (s_latest st) (a_stop a) (a_resync a) in
+  let stop := stop_table (eff_latest cfg st) (a_stop a) (a_resync a) in
   let lim := depth_table (c_ads_depth cfg) (c_first_depth cfg) (a_depth a) stop in
   let seg := segment ch head stop lim in
   avail pub (s_store st) seg = true ->
@@ -854,7 +854,7 @@ Hypothesis Hhead : the_head a = Some (head, queried).
 Hypothesis Hin : In head ch.
 
 Let w := chain_world EPrev extra ch pub.
-Let stop st := stop_table (s_latest st) (a_stop a) (a_resync a).
+Let stop st := stop_table (eff_latest cfg st) (a_stop a) (a_resync a).
 Let lim st := depth_table (c_ads_depth cfg) (c_first_depth cfg) (a_depth a) (stop st).
 Let seg st := segment ch head (stop st) (lim st).
 
@@ -921,7 +921,9 @@ Proof.
   intros El H1 H2 o1 o2. unfold o1, o2, w.
   rewrite (sync_ad_chain_spec extra ch pub cfg a st1 head queried Hwf Hstrict Hhook Hhead Hin H1).
   rewrite (sync_ad_chain_spec extra ch pub cfg a st2 head queried Hwf Hstrict Hhook Hhead Hin H2).
-  unfold ad_result. cbn [r_ret r_hooks r_event r_state s_latest]. rewrite El. auto.
+  unfold ad_result. cbn [r_ret r_hooks r_event r_state s_latest].
+  assert (Ee : eff_latest cfg st1 = eff_latest cfg st2) by (unfold eff_latest; rewrite El; reflexivity).
+  unfold seg, lim, stop. rewrite Ee, El. auto.
 Qed.
 
 Lemma cor_latest st :
@@ -945,7 +947,7 @@ End AdChainCorollaries.
    segment size 2, block 4 already stored *)
 Definition ex_ch : list cid := [5; 4; 3; 2; 1].
 Definition ex_extra : list edge := [(EOther, 999)].
-Definition ex_cfg := CFG 3 0 2 0 true HNominate.
+Definition ex_cfg := CFG 3 0 2 0 true HNominate None.
 Definition ex_call := ADCALL None None false 0 0 None (Some 5).
 Definition ex_st := ST (Some 1) [4].
 
@@ -984,3 +986,39 @@ Example ex_diamond :
   o_order (walk 5 (WORLD d [1; 2; 3; 4]) VAll None None 4 []) = [4; 2; 1; 3; 1] /\
   o_reqs (walk 5 (WORLD d [1; 2; 3; 4]) VAll None None 4 []) = [4; 2; 1; 3].
 Proof. split; reflexivity. Qed.
+
+(* ================================================================ *)
+(* 6. Handler removal                                                *)
+
+(* RemoveHandler / the idle cleaner between calls change nothing observable: the other
+   calls have the same outcomes and the final state is the same as without those steps *)
+Theorem removal_steps_are_invisible w cfg : forall l st,
+  filter (fun p => negb (is_removal (fst p))) (fst (run_seq w cfg l st)) =
+    fst (run_seq w cfg (filter (fun c => negb (is_removal c)) l) st) /\
+  snd (run_seq w cfg l st) = snd (run_seq w cfg (filter (fun c => negb (is_removal c)) l) st) /\
+  (forall c o, In (c, o) (fst (run_seq w cfg l st)) -> is_removal c = true ->
+     r_hooks o = [] /\ r_reqs o = [] /\ r_event o = None).
+Proof.
+  induction l as [|c r IH]; intro st.
+  - cbn. split; [reflexivity|]. split; [reflexivity|]. intros c o [].
+  - cbn [run_seq filter].
+    destruct (is_removal c) eqn:R.
+    + assert (Hst : r_state (run_call w cfg c st) = st) by (destruct c; try discriminate; reflexivity).
+      assert (Hq : r_hooks (run_call w cfg c st) = [] /\ r_reqs (run_call w cfg c st) = [] /\ r_event (run_call w cfg c st) = None)
+        by (destruct c; try discriminate; cbn; auto).
+      rewrite Hst. destruct (IH st) as (A & B & C).
+      destruct (run_seq w cfg r st) as [outs st'] eqn:E. cbn [fst snd negb filter] in *. rewrite R. cbn [negb].
+      split; [exact A|]. split; [exact B|].
+      intros c1 o1 [X|X] Hc; [inversion X; subst; exact Hq|apply (C c1 o1 X Hc)].
+    + cbn [negb run_seq]. destruct (IH (r_state (run_call w cfg c st))) as (A & B & C).
+      destruct (run_seq w cfg r (r_state (run_call w cfg c st))) as [outs st'] eqn:E.
+      destruct (run_seq w cfg (filter (fun c0 => negb (is_removal c0)) r) (r_state (run_call w cfg c st))) as [outs2 st2] eqn:E2.
+      cbn [fst snd filter] in *. rewrite R. cbn [negb].
+      split; [f_equal; exact A|]. split; [exact B|].
+      intros c1 o1 [X|X] Hc; [inversion X; subst; congruence|apply (C c1 o1 X Hc)].
+Qed.
+
+Lemma removal_keeps_latest w cfg c st :
+  is_removal c = true -> r_state (run_call w cfg c st) = st /\
+  eff_latest cfg (r_state (run_call w cfg c st)) = eff_latest cfg st.
+Proof. intro H. destruct c; try discriminate; split; reflexivity. Qed.
